@@ -85,7 +85,8 @@ impl UpdateGenerator for MarkdownUpdateGenerator {
                     let config = if config_text.trim().is_empty() {
                         "".into()
                     } else {
-                        format!(" {{{}}}", config_text.trim_start())
+                        // only what YAML itself skips in front of the first key
+                        format!(" {{{}}}", config_text.trim_start_matches([' ', '\t']))
                     };
 
                     // a code block without code holds no test, hence has no outcome
